@@ -150,7 +150,7 @@ class Scratch:
     FLAVOURS = {
         'asan': ['-O1', '-g', '-fsanitize=address,undefined', '-fno-sanitize-recover=all', '-fno-omit-frame-pointer'],
         'plain': ['-O1', '-g'],
-        'cov': ['-O0', '-g', '--coverage'],
+        'cov': ['-O0', '-g', '--coverage', '-DVERIF_GCOV'],
         'fuzz': ['-O1', '-g', '-fsanitize=fuzzer-no-link,address,undefined', '-fno-sanitize-recover=all', '-fno-omit-frame-pointer'],
     }
     CC = {'fuzz': 'clang'}
